@@ -68,7 +68,10 @@ def monitor(script, c):
             pr, un = out.get(i - 2, []), out.get(i - 1, [])
             ssrc = sl[i - 3].split("|")[1].strip()[16:24]
             if len(pr) < 5 or len(un) < 5 or int(pr[2], 16) != 0:
-                continue            # protect refused the packet
+                # protect refused the packet: nothing to round-trip.  srtp_protect may have advanced the sender's index
+                # before it refused (the extension walk runs after srtp_rdbx_add_index), which the receiver cannot follow
+                desync.add(ssrc)
+                continue
             if t[2] == "0" or ssrc in desync:
                 # outside the property's domain (or the peer is no longer in the same index state): the sender has advanced;
                 # if the receiver did not accept this packet its estimate may differ from now on
